@@ -127,7 +127,11 @@ impl Terminal {
         // Set final cursor position
         execute!(
             self.stderr,
-            cursor::MoveToColumn((PROMPT.len() + self.visible_cursor) as u16),
+            // Columns are 16 bits wide, and the terminal backend adds 1 to make them 1-based:
+            // a longer line saturates, rather than wrapping (or overflowing at exactly 0xFFFF)
+            cursor::MoveToColumn(
+                (PROMPT.len() + self.visible_cursor).min(u16::MAX as usize - 1) as u16
+            ),
         )
         .expect("failed to move cursor");
 
